@@ -109,6 +109,7 @@ type Interp struct {
 	cfgs    map[*ssa.Function]*fnCFG
 	Fixed   map[string]string
 	drawMode int
+	syncMaps map[string]*MapV // sync.Map contents by receiver object (model in intrinsics.go)
 	symSeeds map[int64]bool // seeds whose draws stay symbolic under a fixed draw pattern (verifrt.SymbolicSeed)
 }
 
@@ -177,6 +178,7 @@ func (in *Interp) ResetPath(c *smt.Ctx, s *smt.Solver, p *PathState) {
 	in.spec = nil
 	in.expApps = nil
 	in.drawMode = 0
+	in.syncMaps = nil
 	in.symSeeds = nil
 }
 
